@@ -436,12 +436,103 @@ def rule_b3(ck, prog, S):
                 if not (da[1].strip_all_casts().get("path") or "").startswith("&") or da[2].strip_all_casts().get("path") != isz:
                     probs.append("width %d: the swapped value is not emitted with item_size bytes" % width)
     if not seen_native or not seen_swapped:
-        ck.anchor_lost("C17-B3", "native/foreign paths of produceResultArrayBinary")
+        # the native / foreign decision is not made inside the producer (it may be handed in as a flag): the same table is
+        # read off the ten public writers by evaluation (binary_array_trace, also the basis of B4)
+        from sa import interp as I
+        bad_, n_ok = [], 0
+        for g in sorted(prog.functions.values(), key=lambda g_: g_.line):
+            if not g.name.startswith("SCPI_ResultArray"):
+                continue
+            pt_ = g.params[1]["type"]["ct"].replace("const ", "").replace("*", "").strip()
+            b_ = {"signed char": 8, "unsigned char": 8, "char": 8, "short": 16, "unsigned short": 16, "int": 32, "unsigned int": 32,
+                  "long": 64, "unsigned long": 64, "long long": 64, "unsigned long long": 64, "float": 32, "double": 64}.get(pt_)
+            if not b_:
+                continue
+            try:
+                bp_, _r = binary_array_trace(prog, g, b_ // 8)
+            except I.Stuck:
+                bp_ = None
+            if bp_ is None:
+                continue
+            n_ok += 1
+            bad_ += ["%s: %s" % (g.name, x) for x in bp_[:1]]
+        if n_ok < 10:
+            ck.anchor_lost("C17-B3", "native/foreign paths of produceResultArrayBinary")
+        elif bad_:
+            ck.violated("C17-B3", st, K.loc(f), bad_[0], {"all": bad_})
+        else:
+            ck.holds("C17-B3", st, K.loc(f), "by evaluation of the %d public writers: native -> raw block; foreign -> header + per-element "
+                     "swap of the element width; bytes raw" % n_ok)
     elif probs:
         ck.violated("C17-B3", st, K.loc(f), sorted(set(probs))[0], {"all": sorted(set(probs))})
     else:
         ck.holds("C17-B3", st, K.loc(f), "native: raw block; foreign: header + per-element swap of the element width; width 1 raw; others -310")
     ck.analysed(f)
+
+
+def binary_array_trace(prog, f, esz):
+    """What a binary array writer ends in, for every (requested format, native format) and element counts 0, 1, 2, by
+    evaluating it (sa/interp.py) on an array of named unknowns; the block primitives, the byte swappers and the native
+    format probe are logged / stubbed.  Returns (problems, number of evaluations) or raises I.Stuck."""
+    from sa import interp as I
+    ec = prog.enumconst
+    big, little = ec.get("SCPI_FORMAT_BIGENDIAN"), ec.get("SCPI_FORMAT_LITTLEENDIAN")
+    problems, runs = [], 0
+    swapname = {2: "SCPI_Swap16", 4: "SCPI_Swap32", 8: "SCPI_Swap64"}
+    for fmt in (big, little):
+        for native in (big, little):
+            for count in (0, 1, 2):
+                arr = [I.Sym("e%d" % i, esz * 8) for i in range(count)] + [0]
+                ctx = I.zero_object(prog, {"tk": "record", "ct": "struct _scpi_t"})
+                effects = {k: "fresh" for k in ("SCPI_ResultArbitraryBlock", "SCPI_ResultArbitraryBlockHeader", "SCPI_ResultArbitraryBlockData",
+                                                "SCPI_Swap16", "SCPI_Swap32", "SCPI_Swap64", "SCPI_ErrorPush", "SCPI_ErrorPushEx")}
+                effects["SCPI_GetNativeFormat"] = native
+                outs, _m = I.explore(prog, f.name, [I.Ptr([ctx], 0), I.Ptr(arr, 0), count, fmt],
+                                     follow=lambda n_: prog.fn(n_) is not None, effects=effects)
+                runs += 1
+                for _ret, fr in outs:
+                    log = [(n_, a) for n_, a in fr.plog if n_ != "SCPI_GetNativeFormat"]
+                    tag = "format %s on a %s-endian host, %d elements" % ("NORMAL" if fmt == big else "SWAPPED", "big" if native == big else "little", count)
+                    if any(n_.startswith("SCPI_ErrorPush") for n_, a in log):
+                        problems.append("%s: an error is pushed" % tag)
+                        continue
+                    if fmt == native or esz == 1:
+                        ok = len(log) == 1 and log[0][0] == "SCPI_ResultArbitraryBlock" and isinstance(log[0][1][1], I.Ptr) and \
+                            log[0][1][1].cont is arr and log[0][1][1].key == 0 and log[0][1][2] == count * esz
+                        if not ok and esz == 1 and fmt != native:
+                            # bytes have no byte order: announced and handed over in one piece is the same block
+                            ok = len(log) == 2 and log[0][0] == "SCPI_ResultArbitraryBlockHeader" and log[0][1][1] == count and \
+                                log[1][0] == "SCPI_ResultArbitraryBlockData" and log[1][1][2] == count and \
+                                (count == 0 or (isinstance(log[1][1][1], I.Ptr) and log[1][1][1].cont is arr and log[1][1][1].key == 0))
+                        if not ok:
+                            problems.append("%s: expected one raw block of %d bytes taken from the array, got %s"
+                                            % (tag, count * esz, [(n_, a[2] if len(a) > 2 else None) for n_, a in log]))
+                        continue
+                    # foreign byte order: header with the byte count, then per element swap + data of the element width
+                    if not log or log[0][0] != "SCPI_ResultArbitraryBlockHeader" or log[0][1][1] != count * esz:
+                        problems.append("%s: the block is not announced with %d bytes (%s)" % (tag, count * esz, log[:1]))
+                        continue
+                    rest = log[1:]
+                    if count == 0:
+                        if not (len(rest) == 1 and rest[0][0] == "SCPI_ResultArbitraryBlockData" and rest[0][1][2] == 0):
+                            problems.append("%s: the empty block is not completed by a zero-length data call" % tag)
+                        continue
+                    okk = len(rest) == 2 * count
+                    for i in range(count):
+                        if not okk:
+                            break
+                        sw, da = rest[2 * i], rest[2 * i + 1]
+                        v = sw[1][0] if sw[1] else None
+                        if sw[0] != swapname[esz] or not (isinstance(v, I.Sym) and v.name == "e%d" % i and v.intact()):
+                            okk = False
+                            break
+                        held = da[1][1].load() if len(da[1]) > 2 and isinstance(da[1][1], I.Ptr) else None
+                        if da[0] != "SCPI_ResultArbitraryBlockData" or da[1][2] != esz or not (isinstance(held, I.Sym) and held.name.startswith("ret:" + sw[0])):
+                            okk = False
+                    if not okk:
+                        problems.append("%s: expected per element %s(element) followed by a %d-byte data call of the swapped value, got %s"
+                                        % (tag, swapname[esz], esz, [n_ for n_, a in rest]))
+    return sorted(set(problems)), runs
 
 
 def rule_b4(ck, prog):
@@ -460,7 +551,18 @@ def rule_b4(ck, prog):
         bin_ = [c for c in f.calls("produceResultArrayBinary")]
         asc = [c for c in f.calls() if (c.get("callee") or "").startswith("SCPI_Result") and c not in bin_]
         probs = []
-        if len(bin_) != 1:
+        evaluated = False
+        if bits:
+            from sa import interp as I
+            try:
+                bp, runs_ = binary_array_trace(prog, f, bits // 8)
+                evaluated = True
+                probs += bp[:3]
+            except I.Stuck:
+                evaluated = False
+        if evaluated:
+            pass
+        elif len(bin_) != 1:
             probs.append("no binary producer call")
         else:
             a = C.call_args(bin_[0])
